@@ -12,7 +12,7 @@
 """
 import os, re, itertools, shutil
 from engine import build
-from engine.common import pmap, sh, VERIF, REPO, BUILD
+from engine.common import CLEAN_ENV, pmap, sh, VERIF, REPO, BUILD
 
 META = {
     'level': 'model_checking',
@@ -258,6 +258,42 @@ def run(ck):
     # ---- (3) real builds: the library's own sources, selected as the Makefile.am conditionals select them, must link in every single-feature-off build
     n_real = real_builds(ck, repo, U, base_lines, q)
     evals += n_real
+    # ---- another object in the same process: the real shared library (project flags, -fvisibility=hidden) is preloaded BEHIND a decoy library that
+    # defines the registries' table symbols with other contents (names rotated by one).  A table the library exports would be resolved to the decoy's
+    # (symbol interposition), and every name would then invoke its neighbour's implementation; tables that are the library's own are unaffected.
+    so = build.build_libsnoopy_so('c13-so', san='plain', repo=repo)
+    dd = os.path.join(ck.workdir, 'decoy')
+    os.makedirs(dd, exist_ok=True)
+    dsrc = ['#include <stddef.h>']
+    for kind in ('datasource', 'filter', 'output'):
+        names = U[kind] + extra[kind]
+        rot = ['zz_decoy'] + names[:-1]
+        dsrc.append('char *snoopy_%sregistry_names[] = { %s, "" };' % (kind, ', '.join('"%s"' % n for n in rot)))
+        dsrc.append('void *snoopy_%sregistry_ptrs[%d];' % (kind, len(names) + 1))
+        dsrc.append('void *snoopy_%sregistry_argRequirements[%d];' % (kind, len(names) + 1))
+    open(os.path.join(dd, 'decoy.c'), 'w').write('\n'.join(dsrc) + '\n')
+    drv = ('#include <unistd.h>\n#include <stdlib.h>\nextern char **environ;\nint main(void) { char *av[] = { "prog", "one", "two", NULL }; execve("/nonexistent/bin/prog", av, environ); return 0; }\n')
+    open(os.path.join(dd, 'drv.c'), 'w').write(drv)
+    r1 = sh(['gcc', '-shared', '-fPIC', '-o', os.path.join(dd, 'libdecoy.so'), os.path.join(dd, 'decoy.c')])
+    r2 = sh(['gcc', '-o', os.path.join(dd, 'drv'), os.path.join(dd, 'drv.c')])
+    if r1.returncode or r2.returncode:
+        raise RuntimeError('decoy build failed: ' + (r1.stderr + r2.stderr).decode()[:500])
+    fmt = 'F=%{filename}|C=%{cmdline}|V=%{snoopy_version}|E=%{env:DECOYVAR}|L=%{snoopy_literal:abc}|U=%{uid}'
+    want_of = None
+    for label, preload in (('alone', so['so']), ('behind_a_library_that_defines_the_table_symbols', os.path.join(dd, 'libdecoy.so') + ':' + so['so'])):
+        for chain, logged in (('only_root', True), ('exclude_uid:0', False)):
+            logp = os.path.join(dd, 'log-%s-%s' % (label[:6], chain[:6]))
+            if os.path.exists(logp):
+                os.unlink(logp)
+            ini = os.path.join(dd, 'snoopy.ini')
+            open(ini, 'w').write('[snoopy]\nmessage_format = "%s"\nfilter_chain = %s\noutput = file:%s\n' % (fmt, chain, logp))
+            rr = sh([os.path.join(dd, 'drv')], env=dict(CLEAN_ENV, LD_PRELOAD=preload, VERIF_SNOOPY_INI=ini, DECOYVAR='envvalue'), timeout=60)
+            got = open(logp, 'rb').read() if os.path.exists(logp) else b''
+            version = re.search(r'#define PACKAGE_VERSION "([^"]*)"', open(os.path.join(so['dir'], 'inc/config.h')).read()).group(1)
+            want = (b'F=/nonexistent/bin/prog|C=prog one two|V=' + version.encode() + b'|E=envvalue|L=abc|U=0\n') if logged else b''
+            n_pos += 1
+            if rr.returncode != 0 or got != want:
+                ck.violation('C13:name_runs_another_implementation:%s:chain=%s' % (label, chain), {'preload': preload, 'rc': rr.returncode, 'got': got.decode('latin-1')[:300], 'want': want.decode('latin-1'), 'stderr': rr.stderr.decode('latin-1')[-300:]})
     ck.coverage(states=len(outcomes) + n_pos, real_library_builds=n_real, transitions=evals, traces_validated_against_impl=validated, evaluations=evals, distinct_nontrivial=len(outcomes),
                 rule='model: every table position; implementation: every probe name in every enumerated configuration; distinct = distinct (registry, thread safety, enabled set)',
                 model_positions_checked=n_pos, model_complete=model_ok, configurations_compiled=len(confs), samples=samples or [{'note': 'none'}])
